@@ -146,7 +146,12 @@ func runC20(t *verifsim.Tape, cfg engine.Config) *engine.Outcome {
 		encoder = goahttp.ResponseEncoder
 		encErr  = goahttp.ErrorEncoder(encoder, nil) // one closure per mounted handler, shared by all requests
 	)
-	const codePattern = c20CodePattern
+	// one run in two validates against a pattern no run has used before: the first requests of a cold server miss the
+	// pattern cache together
+	codePattern := c20CodePattern
+	if t.Draw("cold-pattern", 2) == 0 {
+		codePattern = fmt.Sprintf("(?:%x){0}", t.Sub("marker")) + c20CodePattern
+	}
 	handle := func(wild bool) http.HandlerFunc {
 		return func(w http.ResponseWriter, r *http.Request) {
 			ctx := context.WithValue(r.Context(), goahttp.AcceptTypeKey, r.Header.Get("Accept"))
